@@ -14,21 +14,31 @@ using S = Wd::S;
 
 struct Rec { char tag; long long id; char kind; };          // image: tag@0 pad7 id@8 kind@16 pad7
 struct Mix { short a; double d; char c; int i; char e; };   // image: a@0 pad6 d@8 c@16 pad3 i@20 e@24 pad7
+struct Opt { char kind; int value; char flag; };            // image: kind@0 pad3 value@4 flag@8 pad3 -- 12 bytes, registers
+struct Samp { int n; long double v[2]; };                   // image: n@0 pad12 v[0]@16 (10 value bytes + 6 padding INSIDE the x87 long double) v[1]@32
+struct Pair { char tag; long long v; };                     // image: tag@0 pad7 v@8 -- 16 bytes: travels in REGISTERS (SysV x86-64)
 #define sandbox_fields_reflection_c02p_class_Rec(f, g, ...) \
   f(char, tag, FIELD_NORMAL, ##__VA_ARGS__) g() f(long long, id, FIELD_NORMAL, ##__VA_ARGS__) g() f(char, kind, FIELD_NORMAL, ##__VA_ARGS__) g()
 #define sandbox_fields_reflection_c02p_class_Mix(f, g, ...)                                                                          \
   f(short, a, FIELD_NORMAL, ##__VA_ARGS__) g() f(double, d, FIELD_NORMAL, ##__VA_ARGS__) g() f(char, c, FIELD_NORMAL, ##__VA_ARGS__) g() \
     f(int, i, FIELD_NORMAL, ##__VA_ARGS__) g() f(char, e, FIELD_NORMAL, ##__VA_ARGS__) g()
-#define sandbox_fields_reflection_c02p_allClasses(f, ...) f(Rec, c02p, ##__VA_ARGS__) f(Mix, c02p, ##__VA_ARGS__)
+#define sandbox_fields_reflection_c02p_class_Pair(f, g, ...) f(char, tag, FIELD_NORMAL, ##__VA_ARGS__) g() f(long long, v, FIELD_NORMAL, ##__VA_ARGS__) g()
+#define sandbox_fields_reflection_c02p_class_Samp(f, g, ...) f(int, n, FIELD_NORMAL, ##__VA_ARGS__) g() f(long double[2], v, FIELD_NORMAL, ##__VA_ARGS__) g()
+#define sandbox_fields_reflection_c02p_class_Opt(f, g, ...) f(char, kind, FIELD_NORMAL, ##__VA_ARGS__) g() f(int, value, FIELD_NORMAL, ##__VA_ARGS__) g() f(char, flag, FIELD_NORMAL, ##__VA_ARGS__) g()
+#define sandbox_fields_reflection_c02p_allClasses(f, ...) f(Rec, c02p, ##__VA_ARGS__) f(Mix, c02p, ##__VA_ARGS__) f(Pair, c02p, ##__VA_ARGS__) f(Opt, c02p, ##__VA_ARGS__) f(Samp, c02p, ##__VA_ARGS__)
 rlbox_load_structs_from_library(c02p);
 
 // the guest's own declarations of the two structs (ILP32: fixed-width members)
 struct GRec { char tag; int64_t id; char kind; };
 struct GMix { int16_t a; double d; char c; int32_t i; char e; };
-static_assert(sizeof(GRec) == 24 && sizeof(GMix) == 32);
+struct GPair { char tag; int64_t v; };
+struct GOpt { char kind; int32_t value; char flag; };
+struct GSamp { int32_t n; long double v[2]; };
+static_assert(sizeof(GSamp) == 48);
+static_assert(sizeof(GRec) == 24 && sizeof(GMix) == 32 && sizeof(GPair) == 16);
 
 static int g_app_object;                 // the application object whose address must not show up in the sandbox
-static unsigned char g_seen[64];
+static unsigned char g_seen[96];
 static size_t g_seen_len = 0;
 static uint64_t n_ok = 0;
 
@@ -58,7 +68,9 @@ static std::vector<std::pair<uintptr_t, uintptr_t>> maps()
   char line[512];
   while (fgets(line, sizeof line, f)) {
     unsigned long lo = 0, hi = 0;
-    if (sscanf(line, "%lx-%lx", &lo, &hi) == 2) v.push_back({ lo, hi });
+    // (the address sanitizer's shadow is one mapping of many TiB: "some address with these upper bytes is mapped" says
+    // nothing there, and no application object lives in it)
+    if (sscanf(line, "%lx-%lx", &lo, &hi) == 2 && hi - lo < (1ull << 36)) v.push_back({ lo, hi });
   }
   fclose(f);
   return v;
@@ -77,7 +89,10 @@ static void judge(const char* path, const char* sn, const std::vector<std::pair<
   for (auto& f : fields) for (size_t i = f.first; i < f.first + f.second; i++) pad[i] = false;
   auto mp = maps();
   for (size_t start = 0; start < g_seen_len; start++) {
-    for (int k = 0; k <= 3; k++) { // the window holds pointer bytes k..7
+    // images of at most 16 bytes travel in registers: their paddings are short, and what shows there is the upper part of an
+    // address (the window may then hold as few as pointer bytes 4..7 - the half that is the same for a whole mapping)
+    const bool in_registers = g_seen_len <= 16;
+    for (int k = 0; k <= (in_registers ? 4 : 3); k++) { // the window holds pointer bytes k..7
       size_t len = 8 - k;
       if (start + len > g_seen_len) continue;
       bool allpad = true;
@@ -90,7 +105,7 @@ static void judge(const char* path, const char* sn, const std::vector<std::pair<
       for (auto& m : mp) {
         if (m.first >= g_sbx_lo && m.second <= g_sbx_hi) continue;
         if (v < m.second && vhi >= m.first) {
-          mon::violation(mon::fmt("C02/by-value-struct/%s/application-address-bytes-in-padding", path),
+          mon::violation(mon::fmt(in_registers ? "C02/by-value-struct/%s/image-passed-in-registers/application-address-bytes-in-padding" : "C02/by-value-struct/%s/application-address-bytes-in-padding", path),
                          mon::fmt("%s: the image the guest received is %s; the %zu padding bytes at offset %zu are bytes %d..7 of an address inside the application mapping %p-%p "
                                   "(for comparison: a local variable lives at %p, an application global at %p) -- stack residue of the application travelled into the sandbox",
                                   sn, memmon::hex(g_seen, g_seen_len).c_str(), len, start, k, (void*)m.first, (void*)m.second, (void*)&mp, (void*)&g_app_object));
@@ -102,7 +117,41 @@ static void judge(const char* path, const char* sn, const std::vector<std::pair<
   n_ok++;
 }
 
+// a local application object in a frame that held pointers before (app_work), its long double elements assigned from values
+// the compiler cannot fold: the padding INSIDE the elements is then whatever the frame held
+__attribute__((noinline)) static void probe_samp(Wd::sbx& sb, long double a, long double b, int mode)
+{
+  tainted<Samp, S> t;
+  t.n = 3; t.v[0] = a; t.v[1] = b;
+  if (mode == 0) Wd::invoke<int(Samp)>(sb, "take_samp", t);
+  else { auto img = t.UNSAFE_sandboxed(sb); std::memcpy(g_seen, &img, sizeof img); g_seen_len = sizeof img; }
+}
 static tainted<Rec, S> cb_rec(rlbox_sandbox<S>&) { tainted<Rec, S> r{}; r.tag = 'A'; r.id = 42; r.kind = 'B'; return r; }
+// an application object that was not value-initialised, built by a small function and returned in registers: its OWN padding
+// is whatever the registers held before (what earlier application code left there: here the address of an application object)
+__attribute__((noinline)) static void app_registers()
+{
+#if defined(__x86_64__)
+  asm volatile("mov %0, %%rax\n mov %0, %%rdx\n mov %0, %%rcx\n mov %0, %%rsi\n mov %0, %%rdi\n mov %0, %%r8\n mov %0, %%r9\n mov %0, %%r10\n mov %0, %%r11\n"
+               :
+               : "r"(reinterpret_cast<uintptr_t>(&g_app_object))
+               : "rax", "rdx", "rcx", "rsi", "rdi", "r8", "r9", "r10", "r11");
+#endif
+}
+__attribute__((noinline)) static tainted<Pair, S> build_pair(long long v)
+{
+  tainted<Pair, S> r; // default-initialised
+  r.tag = 'P';
+  r.v = v;
+  return r;
+}
+static tainted<Pair, S> cb_pair(rlbox_sandbox<S>&)
+{
+  volatile uintptr_t sink = 0;
+  app_work(&sink);
+  app_registers();
+  return build_pair(0x1122334455667788LL);
+}
 static tainted<Mix, S> cb_mix(rlbox_sandbox<S>&) { tainted<Mix, S> m{}; m.a = 1; m.d = 2.5; m.c = 'c'; m.i = 7; m.e = 'e'; return m; }
 
 int main(int argc, char** argv)
@@ -115,6 +164,10 @@ int main(int argc, char** argv)
   lib.add("take_mix", reinterpret_cast<void*>(&g_take<GMix>));
   lib.add("call_ret_rec", reinterpret_cast<void*>(&g_call_ret<GRec>));
   lib.add("call_ret_mix", reinterpret_cast<void*>(&g_call_ret<GMix>));
+  lib.add("take_pair", reinterpret_cast<void*>(&g_take<GPair>));
+  lib.add("take_opt", reinterpret_cast<void*>(&g_take<GOpt>));
+  lib.add("take_samp", reinterpret_cast<void*>(&g_take<GSamp>));
+  lib.add("call_ret_pair", reinterpret_cast<void*>(&g_call_ret<GPair>));
   Wd::sbx sb;
   sb.create_sandbox(&lib);
   g_sbx_lo = Wd::base(sb);
@@ -123,6 +176,8 @@ int main(int argc, char** argv)
   volatile uintptr_t sink = 0;
   auto cbr = sb.register_callback(cb_rec);
   auto cbm = sb.register_callback(cb_mix);
+  auto cbp = sb.register_callback(cb_pair);
+  const std::vector<std::pair<size_t, size_t>> fpair = { { 0, 1 }, { 8, 8 } };
   for (int round = 0; round < mon::tier(20, 400); round++) {
     tainted<Rec, S> r{};
     r.tag = 'A'; r.id = 42 + round; r.kind = 'B';
@@ -141,6 +196,30 @@ int main(int argc, char** argv)
     mon::ctx("by-value-struct/callback-result | Mix round %d", round);
     app_work(&sink); std::memset(g_seen, 0, sizeof g_seen);
     if (!mon::aborts([&] { Wd::invoke<int(Mix (*)())>(sb, "call_ret_mix", cbm); })) judge("callback-result", "struct{short;double;char;int;char}", fmix);
+    // a 16-byte image is passed and returned in registers: the padding of what arrives is whatever the register halves held
+    app_work(&sink); app_registers();
+    tainted<Pair, S> pr = build_pair(1000 + round);
+    {
+      tainted<Opt, S> op;
+      op.kind = 'k'; op.value = round; op.flag = 'f';
+      mon::ctx("by-value-struct/invoke-argument | Opt round %d", round);
+      app_work(&sink); std::memset(g_seen, 0, sizeof g_seen);
+      if (!mon::aborts([&] { Wd::invoke<int(Opt)>(sb, "take_opt", op); })) judge("invoke-argument", "struct{char;int;char}", { { 0, 1 }, { 4, 4 }, { 8, 1 } });
+    }
+    if (sizeof(long double) == 16) {
+      for (int mode = 0; mode < 2; mode++) {
+        mon::ctx("by-value-struct/%s | Samp round %d", mode ? "UNSAFE_sandboxed" : "invoke-argument", round);
+        app_work(&sink); std::memset(g_seen, 0, sizeof g_seen);
+        volatile long double va = 1.5L + round, vb = -2.75L;
+        if (!mon::aborts([&] { probe_samp(sb, va, vb, mode); })) judge(mode ? "UNSAFE_sandboxed" : "invoke-argument", "struct{int;long double[2]}", { { 0, 4 }, { 16, 10 }, { 32, 10 } });
+      }
+    }
+    mon::ctx("by-value-struct/invoke-argument | Pair round %d", round);
+    app_work(&sink); std::memset(g_seen, 0, sizeof g_seen);
+    if (!mon::aborts([&] { Wd::invoke<int(Pair)>(sb, "take_pair", pr); })) judge("invoke-argument", "struct{char;long long}", fpair);
+    mon::ctx("by-value-struct/callback-result | Pair round %d", round);
+    app_work(&sink); std::memset(g_seen, 0, sizeof g_seen);
+    if (!mon::aborts([&] { Wd::invoke<int(Pair (*)())>(sb, "call_ret_pair", cbp); })) judge("callback-result", "struct{char;long long}", fpair);
     mon::ctx("by-value-struct/UNSAFE_sandboxed | Rec round %d", round);
     app_work(&sink);
     if (!mon::aborts([&] { auto img = r.UNSAFE_sandboxed(sb); std::memcpy(g_seen, &img, sizeof img); g_seen_len = sizeof img; })) judge("UNSAFE_sandboxed", "struct{char;long long;char}", frec);
